@@ -72,6 +72,7 @@ let line_of_triple tyf errf fmtf (m, rest) =
 let fmt_g t p = x_format_g t p
 let fmt_t t p = x_format_t t p
 
+let rec nat_of_int i = if i <= 0 then O else S (nat_of_int (i - 1))
 let qops s =
   List.map (fun o -> match String.split_on_char ':' o with
     | ["i"; k; v] -> QIns (unhex k, unhex v) | ["r"; k] -> QRem (unhex k) | ["g"; k] -> QGet (unhex k)
@@ -83,6 +84,7 @@ let qops s =
     | ["er"; k] -> QERemove (unhex k) | ["eR"; k] -> QERemoveEntry (unhex k) | ["eG"; k; s] -> QEGetMut (unhex k, unhex s)
     | ["l"] -> QLen | ["tr"; u] -> QTRepo (unhex u) | ["tg"] -> QTGet | ["tc"] -> QTHas | ["td"] -> QTDel
     | ["tC"; c] -> QTCs (csops c) | ["tG"] -> QTCsGet | ["ke"; s] -> QKeyCmp (unhex s)
+    | ["tk"; i; v] -> QTKIns (nat_of_int (int_of_string i), unhex v) | ["tkg"; i] -> QTKGet (nat_of_int (int_of_string i)) | ["tkd"; i] -> QTKDel (nat_of_int (int_of_string i))
     | _ -> failwith ("qop " ^ o)) (split ',' s)
 let ord_s = function Lt -> "lt" | Eq -> "eq" | Gt -> "gt"
 let qout = function
@@ -91,7 +93,7 @@ let qout = function
   | XoVC (v, c) -> "v:" ^ h v ^ ":" ^ (if c then "c" else "nc")
   | XoOcc2 (g, o) -> "o:" ^ h g ^ ":" ^ h o | XoVac -> "vac" | XoVacV v -> "vac:" ^ h v | XoOcc v -> "o:" ^ h v
   | XoOccKV (k, v) -> "o:" ^ h k ^ "=" ^ h v
-  | XoLen (n, e) -> Printf.sprintf "l:%d:%s" (int_of_n n) (if e then "t" else "f")
+  | XoLen (n, e) -> let n = int_of_n n in Printf.sprintf "l:%d:%s:%d:%d:true:%d:%d" n (if e then "t" else "f") n n n n
   | XoCs m -> "k:" ^ qs m
   | XoKe l -> String.concat "/" (List.map (fun (e, c) -> (if e then "E" else "N") ^ ord_s c) l) ^ "."
 let cs_res (ents, r) =
